@@ -13,8 +13,15 @@ RULE = ("one-dimensional sweeps (exhaustive): each of the six timestamps over th
         "-skew-1, -skew, -skew+1, -1, 0, +1, +skew-1, +skew, +skew+1, +skew+2, +1h, +-1d, +-(1d+skew)+{-2..2}} x skew "
         "{unset, 0, 60, 180} x syntax {plain, fractional}; complete NotBefore x NotOnOrAfter products for Conditions "
         "and SubjectConfirmationData; seeded random combinations of all six.  Every case is a signed Response run "
-        "through parse_authn_request_response under a frozen virtual clock.  non-trivial = distinct (field, offset "
-        "class, skew, syntax) tuples where at least one timestamp is not at its baseline position")
+        "through parse_authn_request_response under a frozen virtual clock.  WHOLE-MESSAGE cases (the shape of the "
+        "message is an input, Model.message): delivery {HTTP-POST, HTTP-Redirect, SOAP = synchronous path, PAOS} x "
+        "Destination {own endpoint, absent, somebody else's} x assertion {clear, EncryptedAssertion} with the IssueInstant "
+        "sweep exhaustive per delivery and the other five sweeps over the window offsets; 0/2/3/n AuthnStatements "
+        "(complete products of {absent, -1h, -skew-2, -skew-1, -skew+1, +skew+1, +1h} for two, per skew); 0/1/2/n bearer "
+        "SubjectConfirmations from the shapes {no data, open, both bounds, expired, expired by 1 s, too early, NotBefore "
+        "only, no bounds, inside by 1 s, inside-but-unordered} (complete products for two); no Conditions / Conditions "
+        "without bounds / without AudienceRestriction / the empty element; seeded random mixtures of everything.  non-trivial = distinct (field, offset "
+        "class, skew, syntax) tuples / distinct message shapes where at least one part is not at its baseline position")
 TRUSTED = ["source-to-Gallina translator harness/py2coq.py + coq/theories/Base/Py.v (validate_on_or_after / validate_before are "
            "re-translated from the source text on every run; c05_source_* prove them equal to the model)",
            "source-to-Gallina translator v2 harness/py2coq2.py + coq/theories/Base/Py2.v (semantics and trusted base: "
@@ -22,12 +29,16 @@ TRUSTED = ["source-to-Gallina translator harness/py2coq.py + coq/theories/Base/P
            "validate.validate_on_or_after, validate.validate_before, time_util.later_than, response.authn_response, "
            "AuthnResponse.authn_statement_ok, AuthnResponse.condition_ok, AuthnResponse._bearer_confirmed, "
            "AuthnResponse.session_info; into coq/gen/C05Src2v.v: StatusResponse.issue_instant_ok after the call-shape "
-           "rewrite X.timetuple() -> timetuple(X) (harness/c05.py:_timetuple_shape); c05_source2_* (C05/Property.v, proofs in "
+           "rewrite X.timetuple() -> timetuple(X) (harness/c05.py:_timetuple_shape) and StatusResponse._verify after the "
+           "float constant 2.0 is made an external value (_float_shape); c05_source2_* (C05/Property.v, proofs in "
            "C05/Source2.v) prove each equal to the model function / stage of Model.accept it mirrors, "
            "c05_source2_accept_by_parts that the stages compose to Model.accept",
            "xmlsec1 stand-in", "renderer harness/render.py", "virtual clock harness/env.py (patches saml2.time_util.time/datetime)"]
 ASSUMPTIONS = ["timestamps later than 1970 + skew", "clock reads whole seconds (utc_now truncates)",
-               "bearer SubjectConfirmationData with NotBefore also carries NotOnOrAfter (completeness half only)"]
+               "bearer SubjectConfirmationData with NotBefore also carries NotOnOrAfter (completeness half only)",
+               "whole-message cases: ONE bearer confirmation whose window holds now confirms the subject (soundness half: "
+               "exists); completeness half only for exactly one AuthnStatement, a delivery Entity.unravel unpacks (POST, "
+               "Redirect, SOAP), a Destination that is absent or the SP's own, and every bearer confirmation carrying data"]
 
 NOW = spaccept.NOW
 
@@ -63,6 +74,7 @@ def regenerate_tables(ctx):
 # ------------------------------------------------------------------------------ translator v2: specs
 SOURCE2_FUNCTIONS = ["validate.py:validate_on_or_after", "validate.py:validate_before", "time_util.py:later_than",
                      "response.py:authn_response", "response.py:StatusResponse.issue_instant_ok",
+                     "response.py:StatusResponse._verify",
                      "response.py:AuthnResponse.authn_statement_ok", "response.py:AuthnResponse.condition_ok",
                      "response.py:AuthnResponse._bearer_confirmed", "response.py:AuthnResponse.session_info"]
 # exception classes the translated functions raise (all direct children of Exception as far as `except` clauses of
@@ -169,24 +181,55 @@ def issue_instant_spec():
                       "timetuple": lambda a: "(timetuple %s)" % a[0], "str_to_time": lambda a: "(parse %s)" % a[0]}}
 
 
+def _float_shape():
+    """A second call shape py2coq2 refuses: a float constant.  `2.0` becomes the global name FLOAT_2_0, which the spec
+    hands in as an extra parameter (an external value, like float() itself).  Concerns only how the float world is
+    reached: the comparison it takes part in stays in the translated text."""
+    import ast
+
+    class _Shape(ast.NodeTransformer):
+        def visit_Constant(self, node):
+            if isinstance(node.value, float):
+                name = "FLOAT_" + repr(node.value).replace(".", "_").replace("-", "m").replace("+", "p")
+                return ast.copy_location(ast.Name(id=name, ctx=ast.Load()), node)
+            return node
+    return _Shape()
+
+
+def verify_spec():
+    """StatusResponse._verify: issue_instant_ok() / status_ok() are calls on self (externals here; issue_instant_ok
+    has its own theorem), float() and the float 2.0 are externals, logging is ignored."""
+    return {"name": "src2_verify", "params": ["self"],
+            "extra_params": [("issue_instant_ok", "pyval -> pyval"), ("status_ok", "pyval -> pyval"),
+                             ("float_", "pyval -> pyval"), ("two", "pyval")],
+            "ignore_calls": ["logger.error", "logger.debug", "logger.info"], "globals": {"FLOAT_2_0": "two"},
+            "exc_parents": {"RequestVersionTooLow": ["Exception"], "RequestVersionTooHigh": ["Exception"]},
+            "calls": {"self.issue_instant_ok": lambda a: "(issue_instant_ok v_self)",
+                      "self.status_ok": lambda a: "(status_ok v_self)", "float": lambda a: "(float_ %s)" % a[0]}}
+
+
 def regenerate_issue_instant(gen_path):
-    """StatusResponse.issue_instant_ok -> coq/gen/C05Src2v.v through py2coq2.translate_def after _timetuple_shape
-    (fail-closed like py2coq2.regenerate: what cannot be translated becomes a poisoned definition)."""
+    """StatusResponse.issue_instant_ok (after _timetuple_shape) and StatusResponse._verify (after _float_shape)
+    -> coq/gen/C05Src2v.v through py2coq2.translate_def (fail-closed like py2coq2.regenerate: what cannot be
+    translated becomes a poisoned definition)."""
     import ast
     import os
     from harness import common, py2coq2
-    q, spec = "StatusResponse.issue_instant_ok", issue_instant_spec()
-    failed = []
-    try:
-        with open(os.path.join(env.SRC, "saml2", "response.py")) as f:
-            fn = py2coq2.find_function(ast.parse(f.read()), q)
-        fn = ast.fix_missing_locations(_timetuple_shape().visit(fn))
-        body = py2coq2.translate_def(fn, spec, "saml2/response.py:%s (.timetuple() call shape rewritten by harness/c05.py)" % q)
-    except (py2coq2.Untranslatable, OSError, SyntaxError) as e:
-        failed.append("%s: %s" % (q, e))
-        body = py2coq2.poison(q, spec, str(e))
-    changed = common.write_if_changed(gen_path, py2coq2.HEADER + body)
-    return {"translated": [q], "untranslatable": failed, "changed": changed, "obligations": 1, "discharged": 1 - len(failed)}
+    items = [("StatusResponse.issue_instant_ok", issue_instant_spec(), _timetuple_shape(), ".timetuple() call shape"),
+             ("StatusResponse._verify", verify_spec(), _float_shape(), "float constant")]
+    failed, bodies = [], []
+    for q, spec, shape, what in items:
+        try:
+            with open(os.path.join(env.SRC, "saml2", "response.py")) as f:
+                fn = py2coq2.find_function(ast.parse(f.read()), q)
+            fn = ast.fix_missing_locations(shape.visit(fn))
+            bodies.append(py2coq2.translate_def(fn, spec, "saml2/response.py:%s (%s rewritten by harness/c05.py)" % (q, what)))
+        except (py2coq2.Untranslatable, OSError, SyntaxError) as e:
+            failed.append("%s: %s" % (q, e))
+            bodies.append(py2coq2.poison(q, spec, str(e)))
+    changed = common.write_if_changed(gen_path, py2coq2.HEADER + "\n".join(bodies))
+    return {"translated": [q for q, _, _, _ in items], "untranslatable": failed, "changed": changed,
+            "obligations": len(items), "discharged": len(items) - len(failed)}
 
 
 FIELDS = ["cnb", "cnooa", "snb", "snooa", "sess", "issue"]
@@ -275,7 +318,197 @@ def generate(ctx):
                     c["tz"] = tz
                     cases.append(c)
     cases += text_cases(ctx)
+    cases += message_cases(ctx)      # last: the streams of the earlier groups stay what they were
     return cases
+
+
+# ---------------------------------------------------------------------------- whole-message cases (Model.message)
+# The SHAPE of the message is an input: how the Response is delivered (HTTP-POST / HTTP-Redirect: asynchronous;
+# SOAP: the synchronous path, asynchop=False; PAOS: a binding Entity.unravel does not unpack), whether it names a
+# Destination (the SP's endpoint / none / somebody else's), whether the assertion arrives in the clear or as an
+# EncryptedAssertion for the SP's key, whether it has Conditions, and ANY NUMBER
+# of bearer SubjectConfirmations (with or without data) and AuthnStatements, each with its own time stamps.
+BINDINGS = {"post": ("BPost", world.BINDING_HTTP_POST, world.SP_ACS_POST),
+            "redirect": ("BRedirect", world.BINDING_HTTP_REDIRECT, world.SP_ACS_REDIRECT),
+            "soap": ("BSoap", world.BINDING_SOAP, "https://sp.example.org/acs/soap"),
+            "paos": ("BPaos", world.BINDING_PAOS, "https://sp.example.org/acs/paos")}
+DESTS = {"own": "(Some true)", "absent": "None", "other": "(Some false)"}
+OTHER_ADDRESS = "https://other.example.org/acs/post"
+MBASE = {"binding": "post", "dest": "own", "enc": False, "issue": 0, "cond": [-300, 300], "confs": [[None, 300]], "stmts": [None]}
+
+
+def msg(skew, frac, tag, **parts):
+    c = {"skew": skew, "frac": frac, "tag": "msg:" + tag}
+    for k, v in MBASE.items():
+        c[k] = parts.get(k, v)
+    c["cond"] = None if c["cond"] is None else list(c["cond"])
+    c["confs"] = [None if w is None else list(w) for w in c["confs"]]
+    c["stmts"] = list(c["stmts"])
+    if parts.get("tz"):
+        c["tz"] = parts["tz"]
+    return c
+
+
+def _field_parts(f, o):
+    """The one-dimensional sweeps of generate(), as message parts."""
+    cond, conf = list(MBASE["cond"]), list(MBASE["confs"][0])
+    if f == "cnb":
+        cond[0] = o
+    elif f == "cnooa":
+        cond[1] = o
+    elif f == "snb":
+        conf[0] = o
+    elif f == "snooa":
+        conf[1] = o
+    elif f == "sess":
+        return {"stmts": [o]}
+    elif f == "issue":
+        return {"issue": o}
+    return {"cond": cond, "confs": [conf]}
+
+
+def _dedupe(xs):
+    out = []
+    for x in xs:
+        if x not in out:
+            out.append(x)
+    return out
+
+
+def stmt_grid(skew):
+    k = skew or 0
+    return _dedupe([None, -3600, -k - 2, -k - 1, -k + 1, k + 1, 3600])
+
+
+def conf_shapes(skew):
+    """Shapes of one bearer confirmation: None = no SubjectConfirmationData; [NotBefore, NotOnOrAfter] offsets."""
+    k = skew or 0
+    shapes = [None, [None, 300], [-300, 300], [None, -k - 2], [None, -k - 1], [k + 2, 3600], [-300, None], [None, None],
+              [None, -k + 1]]
+    if k >= 2:
+        shapes.append([k - 1, -k + 1])     # inside both bounds plus skew, but NotOnOrAfter earlier than NotBefore
+    return shapes
+
+
+def message_cases(ctx):
+    rng = ctx.rng
+    deep = ctx.thorough
+    out = []
+    some_frac = lambda: "5" if rng.random() < 0.2 else None  # noqa: E731
+    # (A) the sweeps over the other deliveries and Destination spellings
+    for b in ("redirect", "soap", "post"):
+        for dest in ("own", "absent"):
+            if (b, dest) == ("post", "own"):
+                continue                     # the old sweeps
+            for skew in SKEWS:
+                for f in FIELDS:
+                    offs = offsets(skew)
+                    if f != "issue":
+                        if (dest != "own" or b == "post" or skew not in (None, 60)) and not deep:
+                            continue
+                        offs = offs if deep else offs[:14]
+                    for o in offs:
+                        if f == "issue" and o is None:
+                            continue
+                        out.append(msg(skew, some_frac() if o is not None else None, "delivery:" + f, binding=b, dest=dest,
+                                       **_field_parts(f, o)))
+    for b in BINDINGS:
+        for skew in SKEWS:
+            k = skew or 0
+            for o in (-DAY - k - 1, -DAY - k + 1, 0, DAY + k - 1, DAY + k + 1):
+                out.append(msg(skew, None, "delivery:other-destination", binding=b, dest="other", issue=o))
+                if b == "paos":
+                    out.append(msg(skew, None, "delivery:paos", binding=b, dest=rng.choice(["own", "absent"]), issue=o))
+    for o in offsets(None):              # the process time zone on the synchronous path
+        if o is not None:
+            out.append(msg(None, None, "delivery:tz", binding="soap", dest="absent", issue=o, tz="JST-9"))
+    # (B) any number of AuthnStatements
+    for skew in SKEWS:
+        g = stmt_grid(skew)
+        for b in ("post", "soap"):
+            out.append(msg(skew, None, "statements:0", binding=b, stmts=[]))
+            out.append(msg(skew, None, "statements:0", binding=b, stmts=[], cond=None))
+        for a in g:
+            for c in g:
+                out.append(msg(skew, some_frac() if (a, c) != (None, None) else None, "statements:2", stmts=[a, c]))
+                if rng.random() < (1.0 if deep else 0.15):
+                    out.append(msg(skew, None, "statements:2", binding=rng.choice(["soap", "redirect"]),
+                                   dest=rng.choice(["own", "absent"]), stmts=[a, c]))
+        if skew in (None, 60) or deep:
+            for a in (None, 3600):
+                for c in (None, 3600):
+                    for d in g:
+                        out.append(msg(skew, None, "statements:3", stmts=[a, c, d]))
+    for _ in range(400 if deep else 60):
+        skew = rng.choice(SKEWS)
+        g = stmt_grid(skew)
+        out.append(msg(skew, some_frac(), "statements:n", binding=rng.choice(list(BINDINGS)[:3]),
+                       stmts=[rng.choice(g) for _ in range(rng.choice([3, 3, 4, 5]))]))
+    # (C) any number of bearer confirmations
+    for skew in (0, 60, 180):
+        sh = conf_shapes(skew)
+        for b in ("post", "soap"):
+            out.append(msg(skew, None, "confirmations:0", binding=b, confs=[]))
+            for w in sh:
+                out.append(msg(skew, None, "confirmations:1", binding=b, confs=[w]))
+        if skew != 60 or deep:
+            for w1 in sh:
+                for w2 in sh:
+                    out.append(msg(skew, None, "confirmations:2", confs=[w1, w2]))
+                    if rng.random() < (1.0 if deep else 0.2):
+                        out.append(msg(skew, "5", "confirmations:2", binding=rng.choice(["soap", "redirect"]),
+                                       confs=[w1, w2]))
+    for _ in range(600 if deep else 120):
+        skew = rng.choice(SKEWS)
+        sh = conf_shapes(skew)
+        out.append(msg(skew, some_frac(), "confirmations:n", binding=rng.choice(list(BINDINGS)[:3]),
+                       confs=[rng.choice(sh) for _ in range(rng.choice([3, 3, 4]))]))
+    # (D) no Conditions element / Conditions without bounds
+    for skew in SKEWS:
+        k = skew or 0
+        for b in ("post", "soap"):
+            for cond in (None, [None, None]):
+                for st in (None, 3600, -k - 2, -k + 1):
+                    out.append(msg(skew, None, "conditions:" + ("absent" if cond is None else "unbounded"), binding=b,
+                                   cond=cond, stmts=[st]))
+    # (D') Conditions without AudienceRestriction: with bounds, and the EMPTY element <Conditions/> (keyswv() empty)
+    for skew in SKEWS:
+        k = skew or 0
+        for b in ("post", "soap"):
+            for cond in ([None, None], [-300, 300], [None, -k - 2], [k + 2, 3600], [None, -k + 1]):
+                c = msg(skew, None, "conditions:no-audience", binding=b, cond=cond, stmts=[rng.choice([None, 3600])])
+                c["aud"] = False
+                out.append(c)
+    # (F) the assertion arrives encrypted (the same sweeps; several statements / confirmations sampled)
+    for skew in (None, 60) if not deep else SKEWS:
+        for f in FIELDS:
+            offs = offsets(skew)
+            for o in (offs if (f == "issue" or deep) else offs[:14]):
+                if f == "issue" and o is None:
+                    continue
+                out.append(msg(skew, some_frac() if o is not None else None, "encrypted:" + f, enc=True,
+                               binding="post" if rng.random() < 0.6 else rng.choice(["redirect", "soap"]),
+                               **_field_parts(f, o)))
+        g, sh = stmt_grid(skew), conf_shapes(skew)
+        for _ in range(200 if deep else 30):
+            out.append(msg(skew, None, "encrypted:statements", enc=True, stmts=[rng.choice(g) for _ in range(rng.choice([0, 2, 2, 3]))]))
+            out.append(msg(skew, None, "encrypted:confirmations", enc=True, confs=[rng.choice(sh) for _ in range(rng.choice([1, 2, 2, 3]))]))
+    # (E) everything at once
+    for _ in range(2500 if deep else 350):
+        skew = rng.choice(SKEWS)
+        offs = [o for o in offsets(skew) if o is not None]
+        pick = lambda base: base if rng.random() < 0.6 else rng.choice(offs + [None])  # noqa: E731
+        sh = conf_shapes(skew)
+        confs = [rng.choice(sh) if rng.random() < 0.5 else [pick(None), pick(300)] for _ in range(rng.choice([1, 1, 1, 2, 2, 3]))]
+        stmts = [pick(None) for _ in range(rng.choice([0, 1, 1, 1, 1, 1, 2, 3]))]
+        cond = None if rng.random() < 0.1 else [pick(-300), pick(300)]
+        issue = 0 if rng.random() < 0.5 else (rng.choice(offs) if rng.random() < 0.7 else rng.randint(-2 * DAY, 2 * DAY))
+        out.append(msg(skew, rng.choice([None, None, "5", "123456"]), "random",
+                       binding=rng.choice(["post", "redirect", "soap", "soap", "paos"] if rng.random() < 0.2 else
+                                          ["post", "redirect", "soap", "soap"]),
+                       dest=rng.choice(["own", "own", "absent", "absent", "other"]), enc=rng.random() < 0.25, issue=issue,
+                       cond=cond, confs=confs, stmts=stmts))
+    return out
 
 
 # ---------------------------------------------------------------------------- time-stamp TEXT cases (C05/Time.v)
@@ -374,6 +607,65 @@ def observe_text(case):
         return {"secs": None, "exc": type(e).__name__}
 
 
+def _ts(case, o):
+    return None if o is None else env.iso(NOW + o, case["frac"])
+
+
+def observe_message(case):
+    """Render the message of the case, deliver it the way the case says, run the real acceptance path."""
+    over = {}
+    if case["skew"] is not None:
+        over["accepted_time_diff"] = case["skew"]
+    sp = spaccept.get_sp(over)
+    _, binding, endpoint = BINDINGS[case["binding"]]
+    a = spaccept.good_assertion()
+    if case["cond"] is None:
+        a["conditions"] = None
+    else:
+        cond = {"audience_restrictions": [[world.SP_ID]] if case.get("aud", True) else []}
+        if case["cond"][0] is not None:
+            cond["not_before"] = _ts(case, case["cond"][0])
+        if case["cond"][1] is not None:
+            cond["not_on_or_after"] = _ts(case, case["cond"][1])
+        a["conditions"] = cond
+    confs = []
+    for w in case["confs"]:
+        c = {"method": render.SCM_BEARER}
+        if w is not None:
+            d = {"recipient": endpoint, "in_response_to": "req-1"}
+            if w[0] is not None:
+                d["not_before"] = _ts(case, w[0])
+            if w[1] is not None:
+                d["not_on_or_after"] = _ts(case, w[1])
+            c["data"] = d
+        confs.append(c)
+    a["subject"]["confirmations"] = confs
+    sts = []
+    for i, o in enumerate(case["stmts"]):
+        st = {"authn_instant": env.iso(NOW - 60 * i), "session_index": "s-%d" % (i + 1),
+              "class_ref": render.AC_PASSWORD if i == 0 else "urn:oasis:names:tc:SAML:2.0:ac:classes:X509"}
+        if o is not None:
+            st["session_not_on_or_after"] = _ts(case, o)
+        sts.append(st)
+    a["authn_statements"] = sts
+    dest = {"own": endpoint, "absent": None, "other": OTHER_ADDRESS}[case["dest"]]
+    r = spaccept.good_response(issue_instant=_ts(case, case["issue"]), destination=dest)
+    if case["enc"]:      # spaccept.build with the encryption step before the Response is signed
+        r = dict(r, assertions_xml=[render.assertion(a)], sig_template=render.signature_template(r["id"]))
+        xml = render.encrypt_assertion_in_response(render.response(r), "sp")
+        xml = render.sign_xml(xml, "idp", render.R_ELEM, r["id"])
+    else:
+        xml = spaccept.build(r, [a], sign_response="idp")
+    if case["binding"] == "redirect":
+        encoded = render.deflate_b64(xml)
+    elif case["binding"] in ("soap", "paos"):
+        encoded = render.soap_envelope(xml)
+    else:
+        encoded = render.b64(xml)
+    o = spaccept.observe(sp, xml, binding, {"req-1": "/"}, encoded=encoded)
+    return {"identity": o["identity"], "nooa": o["nooa"], "exc": o["exc"]}
+
+
 def observe(case):
     if "text" in case:
         return observe_text(case)
@@ -384,13 +676,15 @@ def observe(case):
         os.environ["TZ"] = case["tz"]
         _t.tzset()
         try:
-            return observe(dict(case, tz=None))
+            return observe(dict(case, tz=None))     # (also a whole-message case)
         finally:
             if old is None:
                 os.environ.pop("TZ", None)
             else:
                 os.environ["TZ"] = old
             _t.tzset()
+    if "binding" in case:
+        return observe_message(case)
     over = {}
     if case["skew"] is not None:
         over["accepted_time_diff"] = case["skew"]
@@ -438,6 +732,13 @@ def coq_case(case, obs):
     else:
         v = "Reject"
     skew = "None" if case["skew"] is None else "(Some %s)" % cq(case["skew"])
+    if "binding" in case:
+        st = lambda o: "None" if o is None else "(Some (%s, %s))" % (cq(NOW + o), cq(bool(case["frac"])))  # noqa: E731
+        win = lambda w: "None" if w is None else "(Some (%s, %s))" % (st(w[0]), st(w[1]))  # noqa: E731
+        return "C05.Corr.mkx %s %s %s %s %s (%s, %s) %s [%s] [%s] %s" % (
+            cq(NOW), skew, BINDINGS[case["binding"]][0], DESTS[case["dest"]], cq(bool(case["enc"])), cq(NOW + case["issue"]),
+            cq(bool(case["frac"])), win(case["cond"]), "; ".join(win(w) for w in case["confs"]),
+            "; ".join(st(o) for o in case["stmts"]), v)
     issue = "(%s, %s)" % (cq(NOW + case["issue"]), cq(bool(case["frac"])))
     return "C05.Corr.mk %s %s %s %s %s %s %s %s %s" % (
         cq(NOW), skew, cq_stamp(case, "cnb"), cq_stamp(case, "cnooa"), cq_stamp(case, "snb"), cq_stamp(case, "snooa"),
@@ -447,6 +748,11 @@ def coq_case(case, obs):
 def nontrivial(case, obs):
     if "text" in case:
         return ("text", case["text"])
+    if "binding" in case:
+        moved = tuple((f, case[f]) for f in sorted(MBASE) if case[f] != MBASE[f])
+        if not case.get("aud", True):
+            moved += (("aud", False),)
+        return (moved, case["skew"], bool(case["frac"]), case.get("tz")) if moved else None
     moved = tuple((f, case[f]) for f in FIELDS if case[f] != BASE[f])
     if not moved:
         return None
@@ -463,6 +769,12 @@ def histogram(cases, observed):
             h["text_results"][k] = h["text_results"].get(k, 0) + 1
             continue
         h["accepted" if o["identity"] else "rejected"] += 1
+        if "binding" in c:
+            for k in ("delivery:%s/%s%s" % (c["binding"], c["dest"], "/encrypted" if c["enc"] else ""),
+                      "statements:%d" % len(c["stmts"]),
+                      "confirmations:%d" % len(c["confs"]), "conditions:%s" % ("absent" if c["cond"] is None else "present")):
+                h.setdefault("message_shapes", {})
+                h["message_shapes"][k] = h["message_shapes"].get(k, 0) + 1
         if o["exc"]:
             h["exceptions"][o["exc"]] = h["exceptions"].get(o["exc"], 0) + 1
     return h
